@@ -48,6 +48,7 @@ ROWS = {
     "R22": ("RETURN missing", "RETURN missing for non-void function"),
     "R23": ("CO_RETURN missing", "CO_RETURN missing for coroutine"),
     "R24a": ("CO_RETURN in normal function", "CO_RETURN when return type is not a coroutine"),
+    "R24d": ("CO_RETURN after RETURN in normal function", "CO_RETURN and RETURN cannot be combined"),
     "R24b": ("CO_YIELD in normal function", "CO_YIELD when return type is not a coroutine"),
     "R24c": ("CO_THROW in normal function", "Do not use CO_THROW from a normal function, use THROW"),
     "R25a": ("CO_RETURN after CO_RETURN", "Multiple CO_RETURN does not make sense"),
@@ -277,13 +278,19 @@ def eval_clauses(kind, family, clauses):
             s.seq = True
         elif op in ("CO_RETURN", "LR_CO_RETURN"):
             cls = (CO_RETURN_CLASS if op == "CO_RETURN" else LR_CO_RETURN_CLASS)[K.coro][v]
-            if not s.ret:           # with a RETURN present only the undocumented "cannot be combined" text fires
+            if not s.ret:
                 if s.coret:
                     add("R25a")
                 if not coro:
                     add("R24a")
                 if not s.coret and coro and cls == "mismatch":
                     add("R25d")
+            elif not coro:
+                # CO_RETURN on an ordinary function that already has a RETURN: still a coroutine clause on an ordinary
+                # function (C19). The library words it "CO_RETURN and RETURN cannot be combined" (header text only);
+                # either that or the documented R24a text is accepted, silence is not.
+                add("R24a")
+                add("R24d")
             if s.throws and s.upper != 0:
                 add("R25b")
             if s.upper == 0:
